@@ -41,6 +41,8 @@ const (
 	ctxLambda
 	ctxPipeArg
 	ctxShadow // after an earlier match (on another union) whose arm binder has the scrutinee's name
+	ctxCallTarget // the target is a call of a generic function: its type is known only after inference
+	ctxBareLambda // the target is an un-annotated lambda parameter (typed only by the enclosing call)
 	numCtx
 )
 
@@ -126,7 +128,7 @@ func (c c09Case) matchLines(target, indent string) string {
 func (c c09Case) source(pkg string) string {
 	var b strings.Builder
 	fmt.Fprintf(&b, "package %s\n\nimport frt\n", pkg)
-	if c.ctx == ctxLambda {
+	if c.ctx == ctxLambda || c.ctx == ctxCallTarget || c.ctx == ctxBareLambda {
 		b.WriteString("import slice\n")
 	}
 	b.WriteString("\ntype U =\n")
@@ -182,6 +184,10 @@ func (c c09Case) source(pkg string) string {
 		b.WriteString("let f (u:U) =\n  let us = [u]\n  let rs = slice.Map (fun (v:U) ->\n" + c.matchLines("v", "                        ") + "                      ) us\n  slice.Head rs\n")
 	case ctxPipeArg:
 		b.WriteString("let h (k:int) (u:U) =\n" + c.matchLines("u", "  ") + "\nlet f (u:U) =\n  u |> h 3\n")
+	case ctxBareLambda:
+		b.WriteString("let f (u:U) =\n  let us = [u]\n  let rs = slice.Map (fun v ->\n" + c.matchLines("v", "                        ") + "                      ) us\n  slice.Head rs\n")
+	case ctxCallTarget:
+		b.WriteString("let f (u:U) =\n  let us = [u; u]\n" + c.matchLines("(slice.Head us)", "  "))
 	case ctxShadow:
 		b.WriteString("type V =\n| Va of int\n| Vb\n\ntype W2 =\n| Hold of V\n| Keep\n\nlet g2 (v:V) =\n  1\n\n")
 		b.WriteString("let f2 (u:U) (w:W2) =\n  let r0 =\n    match w with\n    | Hold u -> g2 u\n    | Keep -> 0\n  frt.Printf1 \"%d\\n\" r0\n" + c.matchLines("u", "  ") + "\nlet f (u:U) =\n  f2 u Keep\n")
@@ -313,6 +319,8 @@ func c09Enumerate(tier string, rng *core.Rand) []c09Case {
 	return out
 }
 
+var c09UntypedRe = regexp.MustCompile(`Cast fail|Can't distinguish String var pattern|Unknown case rule|Unknown match case`)
+
 var c09DiagRe = regexp.MustCompile(`match does not cover all cases\. Can't find case: (\w+)\.`)
 
 func runC09(r *core.Run, tier string) {
@@ -327,7 +335,7 @@ func runC09(r *core.Run, tier string) {
 		r.Inconclusive("fc does not build: " + err.Error())
 		return
 	}
-	r.Rule("a case is one file holding one match on a union value, transpiled by its own fc process: every union of 1..4 cases (thorough: 5) x every payload/no-payload mix x every non-empty duplicate-free arm sequence x every arm form (bind / `_` / no payload) x with/without default, plus a seeded sample placed in 6 nesting contexts (let right-hand side, if branch, inside another match arm, inside a lambda, in a piped partially applied function, after a match on another union whose arm binder carries the scrutinee's name); observed: exit status, diagnostic, presence of gen file; expected by set computation; a sample of accepted programs is compiled and run on one value per case; non-trivial = union with >= 2 cases; distinct by (union shape, arm sequence, forms, default, context)")
+	r.Rule("a case is one file holding one match on a union value, transpiled by its own fc process: every union of 1..4 cases (thorough: 5) x every payload/no-payload mix x every non-empty duplicate-free arm sequence x every arm form (bind / `_` / no payload) x with/without default, plus a seeded sample placed in 8 nesting contexts (an un-annotated lambda parameter as target, a target that is a call of a generic function, let right-hand side, if branch, inside another match arm, inside a lambda, in a piped partially applied function, after a match on another union whose arm binder carries the scrutinee's name); observed: exit status, diagnostic, presence of gen file; expected by set computation; a sample of accepted programs is compiled and run on one value per case; non-trivial = union with >= 2 cases; distinct by (union shape, arm sequence, forms, default, context)")
 	r.Assume("the match target's union type is known when the match is parsed (annotated parameter or bound variable)", "arms never repeat a case (Go rejects duplicate type-switch cases)")
 	cases := c09Enumerate(tier, core.NewRand(r.SeedV, "c09"))
 	type obs struct {
@@ -363,6 +371,14 @@ func runC09(r *core.Run, tier string) {
 		}
 		unc := c.uncovered()
 		files := map[string]string{"m.fo": c.source("main"), "observed.txt": fmt.Sprintf("exit=%d\ngen file present=%v\ndiagnostic=%s\n", o.exit, o.hasGen, o.diag)}
+		if c.ctx == ctxBareLambda && c.second == nil && o.exit != 0 && !o.hasGen && c09UntypedRe.MatchString(o.diag) {
+			// fc does not know the target's type when it parses the rules: complete and incomplete
+			// matches alike are rejected before the coverage check (one known finding; an ACCEPTED
+			// incomplete match in this context is still judged below)
+			r.Count("matches_on_untyped_lambda_parameter_rejected_before_the_coverage_check", 1)
+			r.Violate("untyped-match-target:bare-lambda-parameter", "a match on an un-annotated lambda parameter is rejected before the coverage check, whether or not it lists every case: "+oneLineN(o.diag, 160), files)
+			continue
+		}
 		if len(unc) == 0 {
 			nAccept++
 			if o.exit != 0 || !o.hasGen {
